@@ -12,7 +12,9 @@
 (* and Stream Footer are one unit each.                                       *)
 EXTENDS Integers, Sequences, FiniteSets, TLC
 
-CONSTANTS NW,        \* threads_max
+CONSTANTS NW,        \* the largest threads_max used in a behaviour (workers are numbered 1..NW)
+          NW0,       \* threads_max given to the first lzma_stream_encoder_mt() call
+          NWChoices, \* thread counts a re-initialisation may ask for
           BS,        \* block_size in units
           Total,     \* total input units the application has
           Chunk,     \* input given to the Block encoder per call (16384 bytes)
@@ -30,11 +32,11 @@ CONSTANTS NW,        \* threads_max
           CountCalls \* BOOLEAN: count lzma_code calls (history variable for bounding; FALSE for liveness checking)
 
 W == 1..NW
-BufsLimit == 2 * NW
 Min(a, b) == IF a < b THEN a ELSE b
 
 VARIABLES m, c, t
 vars == <<m, c, t>>
+BufsLimit == 2 * m.nw          \* lzma_outq_init(outq, allocator, threads)
 
 MInit == [pc |-> "out", act |-> "RUN", inAvail |-> 0, given |-> 0, outSpace |-> 0, space0 |-> 0, progress |-> FALSE,
           allowBuf |-> FALSE, delivered |-> 0, lastRet |-> "OK", ended |-> FALSE, calls |-> 0, flushing |-> "NONE",
@@ -53,6 +55,8 @@ MInit == [pc |-> "out", act |-> "RUN", inAvail |-> 0, given |-> 0, outSpace |-> 
           blkChain |-> <<>>,     \* the chain each Block was started with
           chainBase |-> 0,       \* chain version at the last (re-)initialisation
           updates |-> 0, lastUpdateRet |-> "none",
+          nw |-> NW0,            \* coder->threads_max
+          nnw |-> NW0,           \* thread count asked for by the re-initialisation in progress
           bs |-> BS,             \* coder->block_size
           nbs |-> BS]            \* block_size asked for by the re-initialisation in progress
 CInit == [free |-> <<>>, threadErr |-> "OK", outq |-> <<>>, readPos |-> 0, sigM |-> FALSE, progressIn |-> 0]
@@ -150,7 +154,7 @@ GtPop ==
     /\ IF c.free # <<>>
        THEN /\ m' = [m EXCEPT !.thr = c.free[1], !.pc = "gtstart"] /\ c' = [c EXCEPT !.free = Tail(c.free)]
             /\ t' = [t EXCEPT ![c.free[1]].assigned = TRUE]
-       ELSE /\ m' = IF m.nInit = NW THEN [m EXCEPT !.pc = "decide"] ELSE [m EXCEPT !.pc = "gtcreate"]
+       ELSE /\ m' = IF m.nInit = m.nw THEN [m EXCEPT !.pc = "decide"] ELSE [m EXCEPT !.pc = "gtcreate"]
             /\ UNCHANGED <<c, t>>
 
 \* initialize_new_thread(): allocate thr->in, mythread_create
@@ -244,14 +248,16 @@ StopStep ==
 \* reset.  The stack of free threads is NOT rebuilt: a worker returns itself to it after worker_encode().
 \* With a different block_size the repaired tree takes the path of a changed thread count instead: threads_end()
 \* (EXIT + signal, join, free every thr->in) and the threads are created again on demand with buffers of the new size.
-AppReinit(nbs) ==
-    /\ m.pc = "out" /\ m.reinits < MaxReinit
-    /\ m' = [m EXCEPT !.pc = IF FixBlockSize /\ nbs # m.bs THEN "rendsig" ELSE "rstop", !.loopI = 0, !.reinits = @ + 1, !.nbs = nbs]
+\* A different thread count always takes that path.
+AppReinit(nbs, nnw) ==
+    /\ m.pc = "out" /\ m.reinits < MaxReinit /\ nnw \in 1..NW
+    /\ m' = [m EXCEPT !.pc = IF (FixBlockSize /\ nbs # m.bs) \/ nnw # m.nw THEN "rendsig" ELSE "rstop", !.loopI = 0,
+                      !.reinits = @ + 1, !.nbs = nbs, !.nnw = nnw]
     /\ UNCHANGED <<c, t>>
 Reinitialised(nInit) ==
     [MInit EXCEPT !.nInit = nInit, !.calls = m.calls, !.reinits = m.reinits, !.tailSz = m.tailSz, !.chain = m.chain + 1,
                   !.chainBase = m.chain + 1, !.updates = m.updates, !.orderOk = m.orderOk, !.progressOk = m.progressOk,
-                  !.bs = m.nbs, !.nbs = m.nbs]
+                  !.bs = m.nbs, !.nbs = m.nbs, !.nw = m.nnw, !.nnw = m.nnw]
 RStop ==
     /\ m.pc = "rstop"
     /\ IF m.loopI < m.nInit
@@ -421,7 +427,7 @@ Main == Run \/ BlkRead \/ EncIn \/ GtPop \/ GtCreate \/ GtStart \/ Copy \/ Publi
         \/ WaitTimeout \/ StopStep \/ EndSignal \/ EndJoin \/ RStop \/ RWait \/ RWaitWake \/ RQuiesceWake
 
 App == \/ \E a \in {"RUN", "FINISH"} \cup FlushActs, g \in Gives, s \in Spaces : Call(a, Min(g, Total - m.given), s)
-       \/ AppEnd \/ (\E nbs \in BSChoices : AppReinit(nbs)) \/ GetProgress \/ FiltersUpdate
+       \/ AppEnd \/ (\E nbs \in BSChoices, nnw \in NWChoices : AppReinit(nbs, nnw)) \/ GetProgress \/ FiltersUpdate
 
 Terminated == m.pc = "freed"
 Next == Main \/ (\E w \in W : Worker(w)) \/ App \/ (Terminated /\ UNCHANGED vars)
